@@ -320,6 +320,9 @@ func checkC13(w *World, r *Report) {
 	r.Rule("R13.10", "numbers written in YANG text are decimal: every strconv.ParseInt/ParseUint in parse, schema and compile gets base 10, either as a constant or through a parameter that every caller (also through the RangeBoundarySlicer interface) fills with the constant 10", 10)
 	r.guard("R13.10", func() { c13Base10(w, r) })
 
+	r.Rule("R13.11", "a default is judged against the whole effective range: the Validate that validateDefault relies on asks every part of a multi-part range (same analysis as R16.12) — a default equal to the upper end of a non-last part must not be refused", 3)
+	r.guard("R13.11", func() { partsScan(w, r, "R13.11") })
+
 	r.Rule("R13.5", "a default that the final type rejects is refused: validateDefault is called unconditionally on every path that returns a type from makeBuiltinType and refineType, and it validates the default with the type's own Validate", 3)
 	r.guard("R13.5", func() {
 		vd := w.Method("compile", "Compiler", "validateDefault")
